@@ -146,5 +146,12 @@ func (u *UDPv4) createRawUDPBuffer(sourceIP net.IP, sourcePort uint16, destIP ne
 	}
 
 	packet := u.buffer.Bytes()
+	// RFC 768 / RFC 8200: a computed checksum of zero is transmitted as all ones; zero means
+	// "no checksum", which IPv6 receivers must discard
+	if udpLayer.Checksum == 0 {
+		udpLayer.Checksum = 0xffff
+		checksumOffset := len(packet) - len(payload) - 2
+		packet[checksumOffset], packet[checksumOffset+1] = 0xff, 0xff
+	}
 	return id, packet, udpLayer.Checksum, nil
 }
